@@ -34,6 +34,23 @@ MUTATIONS = {
     "ELSE LET d == s.cols + s.skip IN (s.v.len \\div d) + ((s.v.len % d) \\div s.cols)",
     "ELSE s.v.len \\div s.cols"),
   ]},
+ "AddrMC": {
+  "target": "Addr",
+  "cfg": "SPECIFICATION Spec\nCONSTANTS\n  W = 6\n  OC = FALSE\n  MaxDim = 4\n  MaxSkip = 2\nINVARIANTS Refines\nCHECK_DEADLOCK FALSE\n",
+  "muts": [
+   ("D5: the data range of an empty window starts at its nominal (possibly out-of-range) position",
+    "IN IF h = 0 THEN [k |-> \"ok\", v |-> 0, n |-> 0, inb |-> TRUE, nc |-> 0, nr |-> 0]",
+    "IN IF h = 0 THEN [k |-> \"ok\", v |-> ds.v, n |-> 0, inb |-> ds.v <= len, nc |-> 0, nr |-> 0]"),
+   ("D2: col(c)[i] multiplies without checked_mul (wraps when overflow checks are off)",
+    "IF i * (1 + skip) >= Word THEN PanicA                                          \\* checked_mul -> None -> expect() panics\n    ELSE IF i * (1 + skip) >= collen THEN PanicA ELSE Ok(i * (1 + skip), 1, TRUE)",
+    "IF (i * (1 + skip)) % Word >= collen THEN PanicA ELSE Ok((i * (1 + skip)) % Word, 1, TRUE)"),
+   ("S07: the coordinate indexer checks the column against the stride",
+    "IF ~(r < nr) \\/ ~(c < nc) THEN PanicA\n    ELSE LET m == Mul(r, stride)  s == Add(m.v, c) IN",
+    "IF ~(r < nr) \\/ ~(c < stride) THEN PanicA\n    ELSE LET m == Mul(r, stride)  s == Add(m.v, c) IN"),
+   ("the row indexer forgets its bounds assertion",
+    "IndexRowB(nc, nr, stride, len, r) ==\n    IF ~(r < nr) THEN PanicA",
+    "IndexRowB(nc, nr, stride, len, r) ==\n    IF FALSE THEN PanicA"),
+  ]},
  "AlgosMC": {
   "target": "Algos",
   "cfg": "SPECIFICATION Spec\nCONSTANTS\n  TMax = 6\n  PMax = 5\n  CMax = 4\n  Which = {\"translate\", \"swaptrace\", \"copywithin\"}\nINVARIANTS TranslateRefines SwapTraceRefines CopyWithinRefines\nCHECK_DEADLOCK FALSE\n",
